@@ -421,7 +421,30 @@ fn part_words(max: usize) -> Stats {
     let alpha: Vec<char> = vec![
         'a', 'e', 'E', 'x', 't', 'r', 'u', 'f', 'n', 'i', '_', '.', ':', '0', '1', '9', 'ä', '#', '$', '\'', 'l', 's',
     ];
-    let mut st = par_strings(&alpha, max, |w, st| {
+    let mut st = par_strings(&alpha, max, |w, st| check_word(w, st));
+    // keyword-like words in every letter case: only the exact lower-case spellings `true` and `false` are
+    // booleans; every other casing is an identifier. Number-like words in every letter case follow the
+    // reference classifier (the words inf / infinity / nan are the known finding F10).
+    for base in ["true", "false", "inf", "nan", "infinity", "0x1f", "1e5", "0b1", "null", "none", "e", "x"] {
+        let letters: Vec<usize> = base.char_indices().filter(|(_, c)| c.is_ascii_alphabetic()).map(|(i, _)| i).collect();
+        for mask in 0..(1u32 << letters.len()) {
+            let mut w: Vec<char> = base.chars().collect();
+            for (k, i) in letters.iter().enumerate() {
+                if mask >> k & 1 == 1 {
+                    w[*i] = w[*i].to_ascii_uppercase();
+                }
+            }
+            let w: String = w.into_iter().collect();
+            check_word(&w, &mut st);
+            st.count("e/letter-case-variants");
+        }
+    }
+    st.add("e/max-length", max as u64);
+    st
+}
+
+fn check_word(w: &str, st: &mut Stats) {
+    {
         if w.is_empty() {
             return;
         }
@@ -468,9 +491,7 @@ fn part_words(max: usize) -> Stats {
                 w,
             ));
         }
-    });
-    st.add("e/max-length", max as u64);
-    st
+    }
 }
 
 /// Long literals: strings, identifiers, digit strings and mantissas of every size in `scale::sizes`.
@@ -587,7 +608,7 @@ pub fn run(cfg: &Cfg) -> Report {
     Report {
         property: ID,
         level: "exploration",
-        rule: format!("(a) every text of length <= {} over a 16-character hostile alphabet, quoted by the reference escaper, alone and in 4 embeddings; (b) every raw source `\"`+w, |w| <= {} over {{\" \\ a n / *}}; (c) every integer below {} in decimal, hex (both digit cases) and with leading zeros, plus 2^k+d and 10^k+d (|d| <= 2) with embeddings; (d) every string of length <= {} over `0 1 5 9 . e E + - x` (token streams) and a pool of doubles (powers of two and ten with neighbours, subnormals, rounding-hard cases) x up to 11 renderings (incl. upper-case `E`, `E+`, `E-`) x 12 embeddings; (e) every word of length <= {} over a 22-character alphabet; (f) scaling families: strings, identifiers, digit strings, mantissas and exponents of n characters for n in 1..20 and up to 129 / 1..40 and up to 400. Oracle: reference lexer/classifier + str::parse. Non-trivial: strings containing quote/backslash/comment characters, raw sources, integers, strings with a float token, float renderings, words classified as literals; every text is enumerated once per part", t.pick(4, 6), t.pick(6, 9), t.pick(1u64 << 14, 1 << 17), t.pick(6, 8), t.pick(3, 5)),
+        rule: format!("(a) every text of length <= {} over a 16-character hostile alphabet, quoted by the reference escaper, alone and in 4 embeddings; (b) every raw source `\"`+w, |w| <= {} over {{\" \\ a n / *}}; (c) every integer below {} in decimal, hex (both digit cases) and with leading zeros, plus 2^k+d and 10^k+d (|d| <= 2) with embeddings; (d) every string of length <= {} over `0 1 5 9 . e E + - x` (token streams) and a pool of doubles (powers of two and ten with neighbours, subnormals, rounding-hard cases) x up to 11 renderings (incl. upper-case `E`, `E+`, `E-`) x 12 embeddings; (e) every word of length <= {} over a 22-character alphabet, and keyword- and number-like words (true, false, inf, nan, infinity, 0x1f, 1e5, ...) in every letter case; (f) scaling families: strings, identifiers, digit strings, mantissas and exponents of n characters for n in 1..20 and up to 129 / 1..40 and up to 400. Oracle: reference lexer/classifier + str::parse. Non-trivial: strings containing quote/backslash/comment characters, raw sources, integers, strings with a float token, float renderings, words classified as literals; every text is enumerated once per part", t.pick(4, 6), t.pick(6, 9), t.pick(1u64 << 14, 1 << 17), t.pick(6, 8), t.pick(3, 5)),
         nontrivial_set: "counter:nontrivial-distinct",
         exhaustive: true,
         bound_completed: "all listed alphabets to the stated lengths".into(),
